@@ -418,9 +418,10 @@ impl Prop for C11 {
         let node = |r: &mut Rng| iri(&format!("n{}", r.usize(3)));
         let pred = |r: &mut Rng, w: usize| if shared_vocab { iri(["p", "q"][r.usize(2)]) } else { iri(&format!("p{}", w)) };
         let join_var = cfg.chance(1, 2);
-        let wins: Vec<WinSpec> = (0..n).map(|w| { let k = 1 + r.usize(2); let block = (0..k).map(|i| (if join_var && i == 0 { "?j".to_string() } else if r.chance(1, 6) { node(&mut r) } else { format!("?a{}{}", w, i) }, pred(&mut r, w), if r.chance(1, 6) { node(&mut r) } else { format!("?a{}{}", w, i + 1) })).collect(); WinSpec { width: 1 + r.usize(6), slide: 1 + r.usize(4), block } }).collect();
+        let two_shared = join_var && cfg.chance(1, 2); // the blocks share two variables: rows can agree on one and disagree on the other
+        let wins: Vec<WinSpec> = (0..n).map(|w| { let k = 1 + r.usize(2); let block = (0..k).map(|i| (if join_var && i == 0 { "?j".to_string() } else if r.chance(1, 6) { node(&mut r) } else { format!("?a{}{}", w, i) }, pred(&mut r, w), if two_shared && i == 0 { "?k".to_string() } else if r.chance(1, 6) { node(&mut r) } else { format!("?a{}{}", w, i + 1) })).collect(); WinSpec { width: 1 + r.usize(6), slide: 1 + r.usize(4), block } }).collect();
         let with_static = cfg.chance(1, 3);
-        let static_block: Vec<Pat> = if with_static { vec![(if join_var { "?j".into() } else { "?a00".into() }, if shared_vocab && r.chance(1, 2) { iri("p") } else { iri("loc") }, "?room".into())] } else { vec![] };
+        let static_block: Vec<Pat> = if with_static { vec![(if join_var { "?j".into() } else { "?a00".into() }, if shared_vocab && r.chance(1, 2) { iri("p") } else { iri("loc") }, if two_shared && r.chance(1, 2) { "?k".into() } else { "?room".into() })] } else { vec![] };
         let static_data: Vec<Fact> = if with_static { (0..(1 + r.usize(4))).map(|_| (node(&mut r), static_block[0].1.clone(), node(&mut r))).collect() } else { vec![] };
         let policy = match cfg.below(4) { 0 => Policy::Wait, 1 => Policy::Steal, k => Policy::Timeout { ms: 10 + r.below(100), steal: k == 2 } };
         let ne = 6 + r.usize(20);
